@@ -5,15 +5,23 @@ simulated link.  Either side issues will/wont/do/dont requests for 1-3 options
 at tape-chosen moments while negotiation bytes are in flight; each direction
 is a FIFO byte stream and the tape chooses which direction moves next and how
 many bytes move (so crossing requests of every kind and commands split across
-deliveries occur); then a drain phase delivers everything.
+deliveries occur); then a drain phase delivers everything.  In a share of the
+runs the application gives up on unanswered requests (cancel() of the returned
+Deferred, or addTimeout on the simulated clock expiring), option hooks of an
+endpoint raise (disableLocal/disableRemote of an application, or the stock ones
+of a class that overrides only enable*, and enable* hooks that crash instead of
+refusing) - an exception escaping dataReceived ends the connection the way a
+reactor ends it - or the connection is simply lost.
 
 Oracle (written from the statement, not from the state maps):
   * every request Deferred fires exactly once — never twice at any moment, none
-    pending once all messages are delivered;
+    pending once all messages are delivered or the connection has ended
+    (a request given up fires through its cancellation and never again);
   * no handler raises (this covers the "can never be entered" assertions);
   * the number of negotiation commands on the wire stays below a bound linear
-    in the number of requests (a reply-to-a-reply loop exceeds it);
-  * after the drain both sides agree per option (A.us == B.him, A.him == B.us),
+    in the number of requests (a reply-to-a-reply loop exceeds it); a request
+    that was given up is allowed one further exchange;
+  * after the drain (connection still up) both sides agree per option (A.us == B.him, A.him == B.us),
     no perspective is still negotiating, and what each application was told
     through enable*/disable* matches its protocol's state;
   * each direction's byte stream, read as RFC 854 defines it (IAC, verb, ONE
@@ -21,6 +29,7 @@ Oracle (written from the statement, not from the state maps):
     options plus exactly the application bytes written.
 """
 from twisted.conch import telnet
+from twisted.internet import defer, error
 from twisted.python.failure import Failure
 
 from detsim import net
@@ -38,14 +47,28 @@ BATCH = 400
 COMPONENTS = {"real": ["twisted.conch.telnet.Telnet.will/wont/do/dont", "twisted.conch.telnet.Telnet.telnet_WILL/WONT/DO/DONT + willMap/wontMap/doMap/dontMap",
                        "twisted.conch.telnet.Telnet.dataReceived", "twisted.internet.defer.Deferred"],
               "stub": ["TCP byte streams in both directions (detsim.net.Link): per-direction FIFO, tape-chosen direction and segment size",
-                       "application policy enableLocal/enableRemote (accepts what the endpoint itself requests plus a tape-chosen subset)"]}
+                       "application policy enableLocal/enableRemote (accepts what the endpoint itself requests plus a tape-chosen subset)",
+                       "application giving up on a request (Deferred.cancel / Deferred.addTimeout on the simulated clock)",
+                       "application hooks that raise (own or stock disableLocal/disableRemote, crashing enable* for options outside the policy); "
+                       "reactor behaviour for an exception escaping dataReceived: connectionLost(Failure(exc)) here, ConnectionLost at the peer"]}
 RULE = ("run = up to 10 will/wont/do/dont requests by either side over 1-3 options (ECHO/SGA/LINEMODE; in 40% of the runs some are replaced by option codes "
         "from the rest of the byte range: 0, LF, CR, SE, NOP, GA, SB, WILL, WONT, DO, DONT=254, IAC=255, or any byte), interleaved with tape-chosen network events "
         "(move written bytes onto the wire / deliver 1..all bytes to one side) and occasional application bytes, a fifth of the requests followed by a re-entrant "
         "request about the same option issued from inside the first one's Deferred callback, then a drain; "
+        "in half of the runs the application gives up on requests: cancel() of a request's Deferred at a tape-chosen moment (mostly while it is unanswered) "
+        "and/or addTimeout(1|2|5 s) on the simulated clock, which a 'tick' event advances between network events; "
+        "in a quarter of the runs each option hook of each endpoint is drawn from ok / raises (60% of the calls) / stock Telnet.disableLocal|disableRemote "
+        "(NotImplementedError) - enable* hooks raise only for options outside the endpoint's policy - and an exception escaping dataReceived ends the "
+        "connection (connectionLost(Failure(exc)) at that side, ConnectionLost at the peer); in a tenth of the runs the connection may be lost at a "
+        "tape-chosen moment; after a loss only exactly-once, the message bound and the wire form are judged; "
         "non-trivial = at least two requests went onto the wire AND negotiation bytes were in flight in both directions at the same time")
-ASSUMPTIONS = ["an endpoint requests will(o)/do(o) only for options its own enableLocal/enableRemote accepts (per the statement)",
-               "the connection is not lost during the run; each direction is reliable and FIFO"]
+ASSUMPTIONS = ["an endpoint requests will(o)/do(o) only for options its own enableLocal/enableRemote accepts (per the statement); an enable* hook therefore "
+               "never raises for an option in its own policy (a policy that crashes does not 'accept'; the statement is silent there)",
+               "each direction is reliable and FIFO while the connection is up; an exception escaping dataReceived ends the connection (what every reactor "
+               "does), after which agreement is not judged (not all messages were delivered) but every request's Deferred must have fired exactly once",
+               "no request is issued on a connection that has ended",
+               "giving up on a request may cost one further exchange (a withdrawal and its answer): the message bound grows by 2 per request given up "
+               "while unanswered - the statement forbids loops, not a bounded withdrawal"]
 
 LEVEL_NOTE = ("seeded search over request/delivery interleavings (1-3 options, up to 10 requests, byte-level segmentation of commands), not the exhaustive "
               "state-hashing enumeration the property's quantifier mentions; the joint abstract protocol states reached are reported as the states measure")
@@ -64,27 +87,57 @@ def oname(o):
 KINDS = ["will", "do", "wont", "dont"]
 APP_ALPHABET = b"ab\n\x00z"
 EXPECTED_FAILURES = (telnet.OptionRefused, telnet.AlreadyEnabled, telnet.AlreadyDisabled, telnet.AlreadyNegotiating)
+GAVE_UP_FAILURES = (defer.CancelledError, defer.TimeoutError)
+HOOKS = ("disableLocal", "disableRemote", "enableLocal", "enableRemote")
+# how a hook behaves: "ok"; "raise" - the application's hook fails (60% of its calls); "stock" - the class overrides enable* only,
+# so Telnet's own disable* runs, which raises NotImplementedError by design
+HOOK_MODES = {"disableLocal": ["ok", "raise", "stock"], "disableRemote": ["ok", "stock", "raise"], "enableLocal": ["ok", "raise"], "enableRemote": ["ok", "raise"]}
+TIMEOUTS = [2, 1, 5]
+
+
+class HookError(Exception):
+    """What a failing application hook raises (a tty mode switch failing, a logging call blowing up ...)."""
 
 
 class Endpoint(telnet.Telnet):
     """Real Telnet with an application policy; records what the application is told."""
 
-    def __init__(self, sim, name, local_ok, remote_ok):
+    def __init__(self, sim, name, local_ok, remote_ok, hooks=None):
         telnet.Telnet.__init__(self)
         self.sim = sim
         self.name = name
         self.local_ok = local_ok
         self.remote_ok = remote_ok
+        self.hooks = hooks or {}    # hook name -> "raise" | "stock" (absent: well-behaved)
+        self.hook_exc = None        # the exception the last failing hook raised (the scenario recognises it by identity)
         self.told_local = {}    # option -> bool, the application's view of "enabled on my side"
         self.told_remote = {}   # option -> bool, the application's view of "enabled on his side"
         self.app_data = bytearray()
         self.stray = []
+
+    def _hook_fault(self, hook, option):
+        mode = self.hooks.get(hook)
+        if mode == "stock":
+            try:
+                getattr(telnet.Telnet, hook)(self, option)
+            except NotImplementedError as x:
+                self.hook_exc = x
+                self.sim.event(self.name, "hook-raised", hook, oname(option), "stock")
+                self.sim.fault("hook_raised_stock_" + hook)
+                raise
+        elif mode == "raise" and self.sim.draw_bool(0.6, "hook_raises"):
+            self.hook_exc = x = HookError("%s(%s) failed" % (hook, oname(option)))
+            self.sim.event(self.name, "hook-raised", hook, oname(option))
+            self.sim.fault("hook_raised_" + hook)
+            raise x
 
     def enableLocal(self, option):
         ok = option in self.local_ok
         self.sim.event(self.name, "enableLocal", oname(option), ok)
         if ok:
             self.told_local[option] = True
+        else:
+            self._hook_fault("enableLocal", option)     # crashes instead of refusing
         return ok
 
     def enableRemote(self, option):
@@ -92,15 +145,19 @@ class Endpoint(telnet.Telnet):
         self.sim.event(self.name, "enableRemote", oname(option), ok)
         if ok:
             self.told_remote[option] = True
+        else:
+            self._hook_fault("enableRemote", option)
         return ok
 
     def disableLocal(self, option):
         self.sim.event(self.name, "disableLocal", oname(option))
         self.told_local[option] = False
+        self._hook_fault("disableLocal", option)
 
     def disableRemote(self, option):
         self.sim.event(self.name, "disableRemote", oname(option))
         self.told_remote[option] = False
+        self._hook_fault("disableRemote", option)
 
     def applicationDataReceived(self, data):
         self.app_data += data
@@ -163,6 +220,11 @@ def run(sim):
                     if o in (b"\xff", b"\x00", b"\xfe"):
                         sim.probe("option_code_%02x" % ord(o))
     nreq = sim.draw_int(1, 10, "nreq")
+    # the application gives up on requests: cancel() at tape-chosen moments and/or addTimeout on the simulated clock
+    giveup_w = sim.draw_choice([0, 0, 2, 4], "giveup_weight")
+    timeout_p = sim.draw_choice([0.0, 0.3], "timeout_share") if giveup_w else 0.0
+    hook_faults = sim.draw_bool(0.25, "hook_faults")
+    loss_w = 1 if sim.draw_bool(0.1, "connection_may_be_lost") else 0
     ends = []
     cfg = {}
     for name in ("A", "B"):
@@ -173,12 +235,19 @@ def run(sim):
                 local_ok.add(o)
             if not sim.draw_bool(0.3, "refuse_remote"):
                 remote_ok.add(o)
-        cfg[name] = {"local_ok": sorted(oname(o) for o in local_ok), "remote_ok": sorted(oname(o) for o in remote_ok)}
-        ends.append(Endpoint(sim, name, local_ok, remote_ok))
+        hooks = {}
+        if hook_faults:
+            for h in HOOKS:
+                mode = sim.draw_choice(HOOK_MODES[h], "hook_mode")
+                if mode != "ok":
+                    hooks[h] = mode
+        cfg[name] = {"local_ok": sorted(oname(o) for o in local_ok), "remote_ok": sorted(oname(o) for o in remote_ok), "hooks": dict(sorted(hooks.items()))}
+        ends.append(Endpoint(sim, name, local_ok, remote_ok, hooks))
     a, b = ends
     app_p = sim.draw_choice([0, 0, 1, 3], "appdata_weight")
     eager = sim.draw_choice([2, 1, 6], "request_weight")
-    sim.config = {"nopts": nopts, "opts": [oname(o) for o in opts], "nreq": nreq, "policy": cfg, "appdata_weight": app_p, "request_weight": eager}
+    sim.config = {"nopts": nopts, "opts": [oname(o) for o in opts], "nreq": nreq, "policy": cfg, "appdata_weight": app_p, "request_weight": eager,
+                  "giveup_weight": giveup_w, "timeout_share": timeout_p, "connection_may_be_lost": bool(loss_w)}
     link = net.Link(sim, a, b)
     link.connect()
     trans = {"A": link.a, "B": link.b}
@@ -186,12 +255,13 @@ def run(sim):
 
     requests = []      # dicts: side, kind, opt, results[]
     app_sent = {"A": bytearray(), "B": bytearray()}
-    flags = {"sent": 0, "crossing": 0, "reentrant": 0}
+    flags = {"sent": 0, "crossing": 0, "reentrant": 0, "abandoned": 0, "giveups": 0, "lost": False, "loss_types": ()}
 
     def bound():
         # a request puts one command on the wire and its peer answers with at most
-        # one; anything beyond that is a reply to a reply (RFC 854's loop rule)
-        return 2 * flags["sent"]
+        # one; anything beyond that is a reply to a reply (RFC 854's loop rule).
+        # Giving up on an unanswered request may cost one more exchange (taking it back).
+        return 2 * flags["sent"] + 2 * flags["abandoned"]
 
     def check_fires():
         for i, r in enumerate(requests):
@@ -240,6 +310,11 @@ def run(sim):
         with sim.guard("request-raised", k):
             d = getattr(e, k)(o)
         went = _ncommands(trans[e.name]) - before    # measured before a re-entrant follow-up can add its own command
+        r["d"] = d
+        if timeout_p and sim.draw_bool(timeout_p, "with_timeout"):
+            # t.do(NAWS).addTimeout(10, reactor): the application stops waiting after a while
+            r["timeout"] = True
+            d.addTimeout(sim.draw_choice(TIMEOUTS, "timeout"), sim.clock)
 
         def fired(res, r=r, idx=idx):
             if isinstance(res, Failure):
@@ -249,11 +324,21 @@ def run(sim):
             r["results"].append(what)
             sim.event("fired", idx, r["side"], r["kind"], oname(r["opt"]), what)
             if isinstance(res, Failure):
-                sim.check("outcome-kind", res.check(*EXPECTED_FAILURES) is not None, r["kind"],
+                if res.check(defer.TimeoutError) and r.get("timeout") and not r.get("gave_up"):
+                    # the timeout expired while the request was unanswered
+                    r["gave_up"] = True
+                    flags["abandoned"] += 1
+                    sim.fault("timeout_unanswered")
+                allowed = EXPECTED_FAILURES
+                if r.get("gave_up"):
+                    allowed += GAVE_UP_FAILURES
+                if flags["lost"]:
+                    allowed += flags["loss_types"]
+                sim.check("outcome-kind", res.check(*allowed) is not None, r["kind"],
                           "request #%d %s.%s failed with %s: %s" % (idx, r["side"], r["kind"], res.type.__name__, res.getErrorMessage()))
             else:
                 sim.check("outcome-kind", res is True, r["kind"], "request #%d fired with %r" % (idx, res))
-            if followup and len(r["results"]) == 1 and len(requests) < nreq + 4:
+            if followup and len(r["results"]) == 1 and len(requests) < nreq + 4 and not flags["lost"]:
                 sim.probe("reentrant_request")
                 flags["reentrant"] += 1
                 issue(e, pick_kind(e, o, "followup_kind"), o, False)
@@ -270,12 +355,70 @@ def run(sim):
             sim.check("immediate-or-wire", len(r["results"]) == 1, k,
                       "request #%d %s.%s(%s) sent nothing and did not fire" % (idx, e.name, k, oname(o)))
 
+    def nfired():
+        return sum(len(r["results"]) for r in requests)
+
+    def connection_ends(first, reason_first, reason_second):
+        """The connection ends now: what is in flight vanishes, both protocols are told (first the named side)."""
+        pending = sum(1 for r in requests if not r["results"])
+        if pending:
+            sim.probe("unanswered_at_connection_end")
+        flags["lost"] = True
+        flags["loss_types"] = tuple({reason_first.type, reason_second.type})
+        del link.flight["A"][:]
+        del link.flight["B"][:]
+        with sim.guard("connectionLost-raised"):
+            trans[first.name].lose(reason_first)
+        with sim.guard("connectionLost-raised"):
+            trans[peer[first.name].name].lose(reason_second)
+        sim.event("connection-ended", first.name, reason_first.type.__name__, *_abstract(ends, opts))
+
     def do_net():
+        fired_before = nfired()
         with sim.guard("handler-raised"):
-            link.step(amounts=(1, 2, 3, 4, 6, None))
+            try:
+                link.step(amounts=(1, 2, 3, 4, 6, None))
+            except Exception as x:
+                owner = [e for e in ends if e.hook_exc is x]
+                if not owner:
+                    raise
+                # an application hook raised and the exception left dataReceived: a reactor logs it and closes the connection
+                # with that failure; the peer sees the connection go away
+                if nfired() > fired_before:
+                    sim.probe("hook_raised_while_completing_request")
+                connection_ends(owner[0], Failure(x), Failure(error.ConnectionLost()))
         # negotiation bytes travelling in both directions at once
         if (b"\xff" in link.flight["A"] + link.b.out) and (b"\xff" in link.flight["B"] + link.a.out):
             flags["crossing"] += 1
+
+    def do_giveup():
+        """The application stops waiting for one of its requests: cancel() of the Deferred the request returned."""
+        cands = [(i, 1 if r["results"] else 6) for i, r in enumerate(requests)]
+        i = sim.draw_weighted(cands, "giveup_which")
+        r = requests[i]
+        flags["giveups"] += 1
+        sim.event("giveup", i, r["side"], r["kind"], oname(r["opt"]), "fired" if r["results"] else "unanswered")
+        if r["results"]:
+            sim.probe("cancel_after_fired")      # a fired Deferred ignores cancel()
+        else:
+            r["gave_up"] = True
+            flags["abandoned"] += 1
+            sim.fault("cancel_unanswered")
+        with sim.guard("cancel-raised", r["kind"]):
+            r["d"].cancel()
+
+    def do_tick():
+        dt = sim.draw_choice([1, 2, 5], "tick")
+        sim.event("tick", dt)
+        sim.sim_time += dt
+        with sim.guard("cancel-raised", "timeout"):
+            sim.clock.advance(dt)
+
+    def do_drop():
+        first = sim.draw_choice(ends, "lost_first")
+        sim.fault("connection_lost")
+        r = error.ConnectionDone() if sim.draw_bool(0.3, "lost_clean") else error.ConnectionLost()
+        connection_ends(first, Failure(r), Failure(r))
 
     def do_app():
         e = sim.draw_choice(ends, "appside")
@@ -296,14 +439,28 @@ def run(sim):
             ops.append(("app", app_p))
         if not ops or (issued >= nreq and not link.enabled()):
             break
+        if giveup_w and requests and flags["giveups"] < 4:
+            ops.append(("giveup", giveup_w))
+        if sim.clock.pending():
+            ops.append(("tick", 2))
+        if loss_w and requests:
+            ops.append(("drop", loss_w))
         op = sim.draw_weighted(ops, "op")
         if op == "request":
             issued += 1
             do_request()
         elif op == "net":
             do_net()
+        elif op == "giveup":
+            do_giveup()
+        elif op == "tick":
+            do_tick()
+        elif op == "drop":
+            do_drop()
         else:
             do_app()
+        if flags["lost"]:
+            break
         check_fires()
         check_bound()
         sim.state("|".join(_abstract(ends, opts)) + "|%d%d" % (min(len(link.flight["A"]) + len(link.b.out), 7), min(len(link.flight["B"]) + len(link.a.out), 7)))
@@ -324,10 +481,11 @@ def run(sim):
     # every Deferred fired exactly once
     for i, r in enumerate(requests):
         sim.check("fires-exactly-once", len(r["results"]) == 1, r["kind"],
-                  lambda: "request #%d %s.%s(%s) has %d results after all messages were delivered; states %r"
-                  % (i, r["side"], r["kind"], oname(r["opt"]), len(r["results"]), _abstract(ends, opts)))
-    # agreement per option
-    for o in opts:
+                  lambda: "request #%d %s.%s(%s) has %d results after %s; states %r"
+                  % (i, r["side"], r["kind"], oname(r["opt"]), len(r["results"]),
+                     "the connection ended" if flags["lost"] else "all messages were delivered", _abstract(ends, opts)))
+    # agreement per option - only when all messages were delivered (the statement says nothing about a connection that ended in between)
+    for o in ([] if flags["lost"] else opts):
         sa, sb = a.options.get(o), b.options.get(o)
         a_us = sa.us.state if sa else "no"
         a_him = sa.him.state if sa else "no"
@@ -359,6 +517,8 @@ def run(sim):
     # negotiation never disturbs the data stream
     for e in ends:
         sim.check("no-stray-command", not e.stray, e.name, "unhandled command/subnegotiation %r" % (e.stray[:3],))
+        if flags["lost"]:
+            continue
         sim.check("app-data-intact", bytes(e.app_data) == bytes(app_sent[peer[e.name].name]), e.name,
                   lambda: "%s received %r, peer sent %r" % (e.name, bytes(e.app_data), bytes(app_sent[peer[e.name].name])))
     if flags["crossing"]:
